@@ -51,7 +51,10 @@ class Pool:
             for p in props:
                 rc, out = sh("./verif check %s --tier %s" % (p, tier), cwd=V, env={"HFSM2_REPO": w, "HFSM2_EVIDENCE": ev})
                 rules = sorted(set(re.findall(r"\[(C\d\d\.[\w-]+)\]", out)))
-                reports = [l.strip()[:400] for l in out.splitlines() if re.search(r"\[C\d\d\.[\w-]+\]\s*$", l) or "analysis broken" in l][:4]
+                ls = out.splitlines()
+                reports = [ls[k + 1].strip()[:400] for k, l in enumerate(ls[:-1]) if l.startswith("VIOLATION")][:4] + [l[:400] for l in ls if "analysis broken" in l][:2]
+                if not rules and p == "C17":
+                    rules = sorted(set("C17.shape/" + m for m in re.findall(r"shapes fail `([^`]+)`", out)))[:4]
                 res[p] = {"exit": rc, "rules": rules, "reports": reports}
             return res
         finally:
